@@ -467,11 +467,11 @@ impl<'a> UserModel<'a> {
             .worksheet(sheet)?
             .cell(row, column)
             .cloned();
-        // If it is a spill cell we want to save the old value as None, because the value of a spill cell is determined by the anchor cell
-        let old_value = if matches!(old_value, Some(Cell::SpillCell { .. })) {
-            None
-        } else {
-            old_value
+        // The value of a spill cell is determined by the anchor cell: save only its style (as
+        // an empty cell), evaluate() recreates the spill cell. `None` means there was no cell.
+        let old_value = match old_value {
+            Some(Cell::SpillCell { s, .. }) => Some(Cell::EmptyCell { s }),
+            other => other,
         };
         let mut diff_list = vec![Diff::SetCellValue {
             sheet,
@@ -2287,11 +2287,10 @@ impl<'a> UserModel<'a> {
             let mut row_vals = Vec::new();
             for c in column..column + width {
                 let cell = ws.cell(r, c).cloned();
-                // SpillCells are transient — restored by re-evaluation, so store as None.
-                let cell = if matches!(cell, Some(Cell::SpillCell { .. })) {
-                    None
-                } else {
-                    cell
+                // SpillCells are transient — restored by re-evaluation: store only their style.
+                let cell = match cell {
+                    Some(Cell::SpillCell { s, .. }) => Some(Cell::EmptyCell { s }),
+                    other => other,
                 };
                 row_vals.push(cell);
             }
